@@ -112,7 +112,7 @@ pub fn take1(menu: &ArrayRef, idx: &[usize]) -> ArrayRef {
 
 pub fn registry(name: &str) -> Vec<Arc<ScalarUDF>> {
     let mut v = match name {
-        "default" => datafusion::execution::session_state::SessionStateDefaults::default_scalar_functions(),
+        "default" => datafusion::execution::SessionStateDefaults::default_scalar_functions(),
         "spark" => datafusion_spark::all_default_scalar_functions(),
         _ => vec![],
     };
@@ -220,14 +220,20 @@ pub fn type_lists_with<F: UDFCoercionExt>(udf: &F, cap: usize, max_arity: usize,
         good.push((types, ok));
     }
     st.distinct_lists = good.len();
-    // greedy diversity: prefer lists whose return type is known, then those adding most unseen (position, type) pairs
+    // greedy diversity: round-robin over the arities present; within an arity prefer lists whose return
+    // type is known, then those adding most unseen (position, type) pairs (ties: enumeration order)
     let mut covered: BTreeSet<(usize, String)> = BTreeSet::new();
     let mut chosen: Vec<Vec<DataType>> = vec![];
     let mut used = vec![false; good.len()];
-    while chosen.len() < cap {
+    let arities: Vec<usize> = good.iter().map(|g| g.0.len()).collect::<BTreeSet<_>>().into_iter().collect();
+    let mut turn = 0usize;
+    let mut misses = 0usize;
+    while chosen.len() < cap && !arities.is_empty() && misses < arities.len() {
+        let arity = arities[turn % arities.len()];
+        turn += 1;
         let mut best: Option<(usize, (bool, usize))> = None;
         for (k, (t, rf_ok)) in good.iter().enumerate() {
-            if used[k] {
+            if used[k] || t.len() != arity {
                 continue;
             }
             let gain = t.iter().enumerate().filter(|(i, d)| !covered.contains(&(*i, norm(d)))).count();
@@ -236,7 +242,11 @@ pub fn type_lists_with<F: UDFCoercionExt>(udf: &F, cap: usize, max_arity: usize,
                 best = Some((k, score));
             }
         }
-        let Some((k, _)) = best else { break };
+        let Some((k, _)) = best else {
+            misses += 1;
+            continue;
+        };
+        misses = 0;
         used[k] = true;
         for (i, d) in good[k].0.iter().enumerate() {
             covered.insert((i, norm(d)));
@@ -334,7 +344,6 @@ pub fn plan(udf: &ScalarUDF, types: &[DataType], cfg: &Arc<ConfigOptions>) -> Op
                             evals += 1;
                             if probe_row(udf, &probe_menus, &row, cfg).0 == Probe::Value {
                                 defaults = row;
-                                ok = true;
                                 break 'two;
                             }
                         }
